@@ -858,6 +858,7 @@ align 16
 	mov	[hash_table + 2 * hash], f_i %+ w
 
 	mov	hash, hash2
+	mov	tmp2, curr_data
 	shr	tmp2, 16
 	compute_hash	hash2, tmp2
 
